@@ -1,6 +1,7 @@
 import A2Verif.Model.Hex
 import A2Verif.Model.Robust
 import A2Verif.Model.RobustWoz
+import A2Verif.Model.RobustTrack
 import A2Verif.Model.RobustDetok
 import A2Verif.Model.RobustFatChain
 import A2Verif.Model.RobustImd
@@ -14,6 +15,10 @@ now* (models selected by `A2Verif.Gen.C12Flags`).
 * `c12 fatmount <hex of sector bytes 0..64> <hex of bytes 510,511>` → class of `fat::Disk::test_img` followed by
   `fat::Disk::from_img` on an image whose sector 0 is those bytes with zeros in between (`err` = not FAT)
 * `c12 woz2 <hex of the file>` → class of `Woz2::from_bytes`
+* `c12 woz1 <hex of the file>` → class (`ok`/`err`/`panic`/`hang`) of `Woz1::from_bytes`, the track-0 solution modelled as
+  a search once around the buffer (`8·6646+1` bit reads)
+* `c12 woz1trk <bytes_used> <bit_count>` → `safe` / `panic`: does a whole-track search of a WOZ1 `TRK` entry with these
+  two fields leave the 6646-byte bit buffer (gate `get_trk_ref` as in the current source, `Gen.C12Flags`)
 * `c12 fatget <typ> <n> <hex of the FAT buffer>` → `ok <value>` / `panic` of `bios::fat::get_cluster`
 * `c12 mg2 <hex of the first 64 bytes> <file length> <0|1 nibble track 0 solvable>` → class of `Dot2mg::from_bytes`
 * `c12 imd <hex of the file>` → class of `Imd::from_bytes`
@@ -46,6 +51,23 @@ def handle (toks : List String) : String :=
     match Hex.ofHex h with
     | some img => (iDetokNow img).cls
     | none => "bad-request"
+  | ["woz1", h] =>
+    match Hex.ofHex h with
+    | some buf =>
+      match woz1FromBytes woz1GuardNow buf (List.replicate (8 * woz1BufLen + 1) Op.next) with
+      | .ok _ => "ok"
+      | .err => "err"
+      | .panic => "panic"
+      | .hang => "hang"
+    | none => "bad-request"
+  | ["woz1trk", bu, bc] =>
+    match bu.toNat?, bc.toNat? with
+    | some bu, some bc =>
+      match woz1TrackAccess woz1GuardNow bu bc woz1BufLen 0 (List.replicate (8 * woz1BufLen + 1) Op.next) with
+      | .panic => "panic"
+      | .hang => "hang"
+      | _ => "safe"
+    | _, _ => "bad-request"
   | ["fatget", t, n, h] =>
     match t.toNat?, n.toNat?, Hex.ofHex h with
     | some typ, some k, some fat =>
